@@ -456,9 +456,22 @@ class Builder:
             after = []
             lctx = ctx.replace(on_break=lambda src: after.append((src, "")), on_continue=lambda src: g._edge(src, h.id, ""))
             g._cur_loops = tuple(getattr(g, "_cur_loops", ())) + (h.id,)
-            body_out = self._block(s.body, [(h.id, "T")], lctx)
+            first = [(h.id, "T")]
+            if isinstance(s.iter, (ast.Tuple, ast.List)) and s.iter.elts and not any(isinstance(e, ast.Starred) for e in s.iter.elts):
+                # literal non-empty sequence: the body runs at least once, so
+                # the first visit of the header has no 'exhausted' edge
+                h0 = g._new("for", s, label="first")
+                for src, lab in list(dangling):
+                    g.succ[src] = [(b if b != h.id or l != lab else h0.id, l) for (b, l) in g.succ[src]]
+                first = [(h0.id, "T")]
+            body_out = self._block(s.body, first, lctx)
             g._cur_loops = g._cur_loops[:-1]
             self._connect(body_out, h.id)
+            if first[0][0] != h.id:
+                # h is reached only by loop-back edges; give it its own body edge
+                body_entry = [b for (b, l) in g.succ[first[0][0]] if l == "T"]
+                for b in body_entry:
+                    g._edge(h.id, b, "T")
             if s.orelse:
                 after += self._block(s.orelse, [(h.id, "F")], ctx)
             else:
